@@ -10,7 +10,7 @@ ASSUMPTIONS = c01.ASSUMPTIONS
 
 
 def run(ctx):
-    res = c01.run_mode(ctx, MODE, 120 if ctx.tier == "quick" else 4000, PID, oracle=gcoracle.c18_oracle)
+    res = c01.run_mode(ctx, MODE, 120 if ctx.tier == "quick" else 1500, PID, oracle=gcoracle.c18_oracle)
     res["extra"]["gc_passes"] = sum(1 for c in ctx.last_cases for o in c["ops"] if o["op"] == "C")
     return res
 
